@@ -83,6 +83,65 @@ Proof.
   rewrite greplay_app, (gupd_replay _ _ _ _ _ _ E). exact IH.
 Qed.
 
+(* everything these operations emit is an item of this table *)
+Definition is_item (t : titem) : Prop := exists a r, t = item a r.
+Lemma gupd_items live fl r X X' c t : SyncSets.gupd A eqb item live fl r X = (X', c, t) -> Forall is_item t.
+Proof.
+  unfold SyncSets.gupd. intros H.
+  destruct (fl =? 1); [destruct (gmem r X)|destruct (fl =? 0); [destruct (gmem r X)|]]; inversion H; subst; try constructor;
+    destruct live; repeat constructor; eexists _, _; reflexivity.
+Qed.
+Lemma gapply_items live ps : forall X done, Forall is_item (snd (fst (SyncSets.gapply A eqb item of_pdu live ps X done))).
+Proof.
+  induction ps as [|p ps IH]; intros X done; cbn [SyncSets.gapply]; [constructor|].
+  destruct (SyncSets.gupd A eqb item live (pdu_flags p) (of_pdu p) X) as [[X1 c] t] eqn:E.
+  destruct (c =? 0); [|constructor].
+  specialize (IH X1 (p :: done)). destruct (SyncSets.gapply A eqb item of_pdu live ps X1 (p :: done)) as [[X2 t2] f]. cbn [fst snd] in *.
+  apply Forall_app. split; [exact (gupd_items _ _ _ _ _ _ _ E)|exact IH].
+Qed.
+Lemma gundo_items live d : forall X, Forall is_item (snd (fst (SyncSets.gundo A eqb item of_pdu live d X))).
+Proof.
+  induction d as [|p d IH]; intros X; cbn [SyncSets.gundo]; [constructor|].
+  destruct (SyncSets.gupd A eqb item live (1 - pdu_flags p) (of_pdu p) X) as [[X1 c] t] eqn:E.
+  destruct (c =? 0); [|constructor].
+  specialize (IH X1). destruct (SyncSets.gundo A eqb item of_pdu live d X1) as [[X2 t2] ok]. cbn [fst snd] in *.
+  apply Forall_app. split; [exact (gupd_items _ _ _ _ _ _ _ E)|exact IH].
+Qed.
+
+(* items of other tables are skipped *)
+Lemma greplay_skip ts : forall X, Forall (fun t => unitem t = None) ts -> greplay ts X = Some X.
+Proof.
+  induction ts as [|t ts IH]; intros X H; [reflexivity|]. inversion H as [|? ? Ht Hts]; subst.
+  unfold greplay, greplay_from in *. cbn [fold_left greplay1]. rewrite Ht. apply IH, Hts.
+Qed.
+
+(* the operations keep a table duplicate-free *)
+Lemma gupd_NoDup live fl r X X' c t : SyncSets.gupd A eqb item live fl r X = (X', c, t) -> NoDup X -> NoDup X'.
+Proof.
+  unfold SyncSets.gupd. intros H Hn.
+  destruct (fl =? 1).
+  - destruct (gmem r X) eqn:M; inversion H; subst; [exact Hn|].
+    apply (NoDup_snoc A); [exact Hn|apply (gmem_false A eqb eqb_eq), M].
+  - destruct (fl =? 0); [|inversion H; subst; exact Hn].
+    destruct (gmem r X); inversion H; subst; [apply NoDup_filter, Hn|exact Hn].
+Qed.
+Lemma gapply_NoDup live ps : forall X done, NoDup X -> NoDup (fst (fst (SyncSets.gapply A eqb item of_pdu live ps X done))).
+Proof.
+  induction ps as [|p ps IH]; intros X done Hn; cbn [SyncSets.gapply]; [exact Hn|].
+  destruct (SyncSets.gupd A eqb item live (pdu_flags p) (of_pdu p) X) as [[X1 c] t] eqn:E.
+  destruct (c =? 0); [|exact Hn].
+  specialize (IH X1 (p :: done) (gupd_NoDup _ _ _ _ _ _ _ E Hn)).
+  destruct (SyncSets.gapply A eqb item of_pdu live ps X1 (p :: done)) as [[X2 t2] f]. exact IH.
+Qed.
+Lemma gundo_NoDup live d : forall X, NoDup X -> NoDup (fst (fst (SyncSets.gundo A eqb item of_pdu live d X))).
+Proof.
+  induction d as [|p d IH]; intros X Hn; cbn [SyncSets.gundo]; [exact Hn|].
+  destruct (SyncSets.gupd A eqb item live (1 - pdu_flags p) (of_pdu p) X) as [[X1 c] t] eqn:E.
+  destruct (c =? 0); [|exact Hn].
+  specialize (IH X1 (gupd_NoDup _ _ _ _ _ _ _ E Hn)).
+  destruct (SyncSets.gundo A eqb item of_pdu live d X1) as [[X2 t2] ok]. exact IH.
+Qed.
+
 (* replay respects the order of the table: permuted tables give permuted results *)
 Lemma gmem_perm r X Y : Permutation X Y -> gmem r X = gmem r Y.
 Proof.
